@@ -6,8 +6,11 @@ use foldhash::{HashMap, HashMapExt, HashSet, HashSetExt};
 use itertools::Itertools;
 use nonempty::NonEmpty;
 use rand::prelude::*;
+#[cfg(not(folo_verif))]
 use rand::rng;
 
+#[cfg(folo_verif)]
+use self::verif_rng::rng;
 use crate::pal::Platform;
 use crate::{
     EfficiencyClass, MemoryRegionId, Processor, ProcessorId, ProcessorSet, SystemHardware,
@@ -961,6 +964,99 @@ enum ProcessorTypeSelector {
     ///
     /// There is no guarantee that any efficiency processors are present on the system.
     Efficiency,
+}
+
+/// Verification-only seam (`cfg(folo_verif)`), used by the model-checking harnesses in `/verif`.
+///
+/// Every random draw made by [`ProcessorSetBuilder`] goes through [`verif_rng::rng()`]. While a
+/// script is installed on the current thread, the `i`-th 32-bit word drawn is `script[i]` (zero
+/// past the end of the script), which lets a harness enumerate every random outcome
+/// deterministically. With no script installed, the words come from the real `rand::rng()`.
+/// With the cfg off, this module does not exist and `rng` is `rand::rng`.
+#[cfg(folo_verif)]
+#[allow(
+    missing_docs,
+    missing_debug_implementations,
+    unreachable_pub,
+    clippy::exhaustive_structs,
+    clippy::arithmetic_side_effects,
+    clippy::indexing_slicing,
+    clippy::cast_possible_truncation,
+    reason = "verification-only"
+)]
+pub mod verif_rng {
+    use std::cell::RefCell;
+    use std::convert::Infallible;
+
+    use rand::{Rng, TryRng};
+
+    struct Script {
+        words: Vec<u32>,
+        drawn: usize,
+    }
+
+    thread_local! {
+        static SCRIPT: RefCell<Option<Script>> = const { RefCell::new(None) };
+    }
+
+    /// Installs `words` as the current thread's source of randomness (replacing any previous
+    /// script) and resets the draw counter.
+    pub fn install(words: Vec<u32>) {
+        SCRIPT.with(|s| *s.borrow_mut() = Some(Script { words, drawn: 0 }));
+    }
+
+    /// Removes the current thread's script. Returns how many 32-bit words were drawn from it.
+    pub fn uninstall() -> Option<usize> {
+        SCRIPT.with(|s| s.borrow_mut().take().map(|s| s.drawn))
+    }
+
+    /// The number of 32-bit words drawn since the script was installed.
+    pub fn drawn() -> Option<usize> {
+        SCRIPT.with(|s| s.borrow().as_ref().map(|s| s.drawn))
+    }
+
+    fn next_word() -> u32 {
+        let scripted = SCRIPT.with(|s| {
+            s.borrow_mut().as_mut().map(|s| {
+                let word = s.words.get(s.drawn).copied().unwrap_or(0);
+                s.drawn += 1;
+                word
+            })
+        });
+
+        scripted.unwrap_or_else(|| rand::rng().next_u32())
+    }
+
+    /// Stand-in for `rand::rng()`: scripted when a script is installed, the real thing otherwise.
+    #[derive(Clone, Copy)]
+    pub struct VerifRng;
+
+    #[must_use]
+    pub fn rng() -> VerifRng {
+        VerifRng
+    }
+
+    impl TryRng for VerifRng {
+        type Error = Infallible;
+
+        fn try_next_u32(&mut self) -> Result<u32, Infallible> {
+            Ok(next_word())
+        }
+
+        fn try_next_u64(&mut self) -> Result<u64, Infallible> {
+            let lo = u64::from(next_word());
+            let hi = u64::from(next_word());
+            Ok(lo | (hi << 32))
+        }
+
+        fn try_fill_bytes(&mut self, dst: &mut [u8]) -> Result<(), Infallible> {
+            for chunk in dst.chunks_mut(4) {
+                let bytes = next_word().to_le_bytes();
+                chunk.copy_from_slice(&bytes[..chunk.len()]);
+            }
+            Ok(())
+        }
+    }
 }
 
 #[cfg(not(miri))] // Miri cannot call platform APIs.
